@@ -32,3 +32,6 @@ void h_gridDiskDistancesInternal(void) {
 }
 void h_localIjkToCell(void) { H3Index origin = nondet_u64(); const CoordIJK *ijk; H3Index *out; H3Error e = localIjkToCell(origin, ijk, out); __CPROVER_assert(0, "canary localIjkToCell"); }
 void h_cellToLocalIjk(void) { H3Index origin = nondet_u64(), h = nondet_u64(); CoordIJK *out; H3Error e = cellToLocalIjk(origin, h, out); __CPROVER_assert(0, "canary cellToLocalIjk"); }
+
+void h_gridDiskDistancesUnsafe(void) { H3Index origin = nondet_u64(); int k = nondet_int(); H3Index *out; int *distances; h3v_n = nondet_i64();
+    H3Error e = gridDiskDistancesUnsafe(origin, k, out, distances); __CPROVER_assert(0, "canary gridDiskDistancesUnsafe"); }
